@@ -107,8 +107,18 @@ class PureRun:
                       f"{where}: {kind} request answered differently from the pristine per-call reference: {d[:3]}")
 
     def guarded_call(self, where: str, fn: Any, *args: Any) -> Any:
+        for a in args:
+            self.readable(a, where)
         snaps = [snapshot(a) for a in args]
-        out = fn(*args)
+        try:
+            out = fn(*args)
+        except Exception as e:  # noqa: BLE001
+            # the request is well-formed (the pristine reference answers it - checked below); a server that
+            # raises on it after some call history is not a deterministic function of its arguments
+            self._reference_answers(args)
+            self.fail("response_determinism", "request_raised_after_call_history:" + type(e).__name__,
+                      f"{where}: the shared Environment object raised {type(e).__name__}: {str(e)[:160]} on a request the pristine "
+                      "reference answers")
         for n, (a, (treedef, ids, data)) in enumerate(zip(args, snaps)):
             t2, ids2, data2 = snapshot(a)
             self.stats.check("argument_snapshots")
@@ -123,16 +133,49 @@ class PureRun:
                 self.fail("argument_integrity", "argument_bytes_changed", f"{where}: leaf {k} of argument {n} changed value during the call")
         return out
 
+    def _reference_answers(self, args: Any) -> None:
+        ps = self.ps
+        if len(args) == 1:
+            ps.ref_reset(args[0])
+        else:
+            ps.ref_step(*args)  # raises (harness error) if the request itself is at fault
+
     # ---- deliveries --------------------------------------------------------------------------------
     def request_of(self, c: Client, action: Any) -> Tuple[str, Any, Any]:
         if c.need_reset:
             return ("reset", c.next_key(), None)
+        self.check_held_state(c)
         return ("step", c.state, action)
+
+    def readable(self, state: Any, where: str) -> None:
+        """Any state the simulator hands back to the server was returned by the server earlier; it must
+        still be a readable value (no leaked tracer, no deleted buffer)."""
+        try:
+            util.to_np(state)
+        except Exception as e:  # noqa: BLE001
+            self.fail("response_integrity", "returned_state_corrupted_by_later_calls:" + type(e).__name__,
+                      f"{where}: a state returned earlier can no longer be read: {type(e).__name__}: {str(e)[:160]}")
+
+    def check_held_state(self, c: Client) -> None:
+        """A response, once returned to a client, is the client's value: calls made since (by anybody) must
+        not have changed or corrupted it (aliasing with state cached on the env / generator object)."""
+        if c.state is None or getattr(c, "held_digest", None) is None:
+            return
+        try:
+            now = util.tree_digest(util.to_np(c.state))
+        except Exception as e:  # noqa: BLE001  (e.g. a leaked tracer inside the returned state)
+            self.fail("response_integrity", "returned_state_corrupted_by_later_calls:" + type(e).__name__,
+                      f"client {self.clients.index(c)}: the state returned earlier can no longer be read: {type(e).__name__}: {str(e)[:160]}")
+        self.stats.check("held_states_rechecked")
+        if now != c.held_digest:  # type: ignore[attr-defined]
+            self.fail("response_integrity", "returned_state_changed_by_later_calls",
+                      f"client {self.clients.index(c)}: the state returned earlier changed value although the client did nothing")
 
     def accept(self, c: Client, kind: str, arg: Any, action: Any, resp: Any) -> None:
         s, ts = resp
         c.state = s
         c.ts = util.to_np(ts)
+        c.held_digest = util.tree_digest(util.to_np(s))  # type: ignore[attr-defined]
         c.history.append((kind, arg if kind == "reset" else action))
         if kind == "reset":
             c.need_reset = False
@@ -165,6 +208,7 @@ class PureRun:
         self.stats.inc(self.stats.transports, "VMAP")
         reqs: List[Optional[Tuple[Any, Any]]] = [None] * size
         for ci, a, sl in zip(cis, actions, slots):
+            self.check_held_state(self.clients[ci])
             reqs[sl] = (self.clients[ci].state, a)
         step_log = [e for e in self.log if e[0] == "step"]
         di = 0
@@ -177,9 +221,17 @@ class PureRun:
                     self.stats.inc(self.stats.faults, "DECOY")
                 else:
                     reqs[sl] = reqs[slots[0]]
+        for r in reqs:
+            self.readable(r[0], "VMAP: batched request")  # type: ignore[index]
         bs = stack([r[0] for r in reqs])  # type: ignore[index]
         ba = ps.act(np.asarray([r[1] for r in reqs]))  # type: ignore[index]
-        out_s, out_ts = ps.v_step(bs, ba)
+        try:
+            out_s, out_ts = ps.v_step(bs, ba)
+        except Exception as e:  # noqa: BLE001
+            for r in reqs:
+                ps.ref_step(r[0], ps.act(r[1]))  # type: ignore[index]
+            self.fail("response_determinism", "request_raised_after_call_history:" + type(e).__name__,
+                      f"VMAP: the shared Environment object raised {type(e).__name__}: {str(e)[:160]} on requests the pristine reference answers")
         outs = list(zip(unstack(out_s, size), unstack(out_ts, size)))
         for sl, r in enumerate(reqs):
             self.check_response(f"VMAP: slot {sl}/{size}", "step", r[0], r[1], outs[sl])  # type: ignore[index]
@@ -190,8 +242,14 @@ class PureRun:
     def deliver_scan(self, ci: int, actions: List[Any]) -> None:
         ps, c = self.ps, self.clients[ci]
         self.stats.inc(self.stats.transports, "SCAN")
+        self.check_held_state(c)
         k = len(actions)
-        _, (ss, tss) = ps.scan(k)(c.state, ps.act(np.asarray(actions)))
+        try:
+            _, (ss, tss) = ps.scan(k)(c.state, ps.act(np.asarray(actions)))
+        except Exception as e:  # noqa: BLE001
+            ps.ref_step(c.state, ps.act(actions[0]))
+            self.fail("response_determinism", "request_raised_after_call_history:" + type(e).__name__,
+                      f"SCAN: client {ci}: the shared Environment object raised {type(e).__name__}: {str(e)[:160]}")
         cur = c.state
         for t in range(k):
             s_t = ps.jax.tree_util.tree_map(lambda x: x[t], ss)
@@ -241,10 +299,12 @@ class PureRun:
         self.stats.inc(self.stats.faults, "CRASH_RESTART")
         for c in self.clients:
             if c.state is not None:
+                # the restarted process hands JAX arrays to the library again (users never pass NumPy leaves to eager code)
+                self.check_held_state(c)
                 leaves, treedef = ps.jax.tree_util.tree_flatten(c.state)
                 blob = pickle.dumps([np.asarray(x) for x in leaves])
-                # the restarted process hands JAX arrays to the library again (users never pass NumPy leaves to eager code)
                 c.state = ps.jax.tree_util.tree_unflatten(treedef, [ps.jax.numpy.asarray(x) for x in pickle.loads(blob)])
+                c.held_digest = util.tree_digest(util.to_np(c.state))  # type: ignore[attr-defined]
         if clear:
             ps.jax.clear_caches()
             self.stats.probe("clear_caches")
@@ -254,13 +314,18 @@ class PureRun:
         """RETRACE: the same server object is wrapped in jax.jit again, so step/reset are traced anew -
         whatever hidden Python state earlier (eager) calls left on the object now flows into the trace."""
         self.stats.inc(self.stats.faults, "RETRACE")
-        self.ps.boot(same_object=True)
+        ps = self.ps
+        ps.boot(same_object=True)
+        # another client triggers the tracing straight away (reset and step are traced on decoy requests)
+        s, _ = ps.j_reset(ps.jax.random.PRNGKey(12345))
+        ps.j_step(s, ps.srv.action_spec.generate_value())
 
     def on_end(self) -> None:
         """Order independence: every client, run alone and sequentially on the pristine instance,
         reaches the same final state."""
         ps = self.ps
         for ci, c in enumerate(self.clients):
+            self.check_held_state(c)
             s = None
             for kind, x in c.history:
                 if kind == "reset":
@@ -348,7 +413,7 @@ def generate_and_run(ps: PureSys, rng: np.random.Generator, stats: Stats, tier: 
             if r < crash_p:
                 emit(["crash", bool(tier == "thorough" and rng.random() < 0.3)])
                 continue
-            if r < crash_p + 0.03:
+            if r < crash_p + 0.05:
                 emit(["retrace"])
                 continue
             if r < 0.10:
@@ -382,7 +447,10 @@ def generate_and_run(ps: PureSys, rng: np.random.Generator, stats: Stats, tier: 
                     ts = util.to_np(jts)
                 emit(["scan", ci, acts])
                 continue
-            emit(["deliver", ci, "EAGER" if rng.random() < eager_p else "JIT", act_for(ci)])
+            # resets are delivered eagerly more often than steps: state cached on the env / generator object by an
+            # eager reset is what a later (re)trace of reset can corrupt
+            p_eager = max(eager_p, 0.3) if run.clients[ci].need_reset else eager_p
+            emit(["deliver", ci, "EAGER" if rng.random() < p_eager else "JIT", act_for(ci)])
         run.on_end()
     except Violation as v:
         v.ops = ops  # type: ignore[attr-defined]
@@ -501,6 +569,8 @@ def run_task(prop: Any, task: Dict[str, Any]) -> Dict[str, Any]:
                         execute(ps, {"keys": ops["keys"], "ops": cand[1:]}, Stats())
                     except Violation as v2:
                         return (v2.monitor, v2.cls) == key
+                    except Exception:  # noqa: BLE001  (a shrunk candidate that is not executable is simply not kept)
+                        return False
                     return False
 
                 small = shrink([["reset"]] + ops["ops"], still, budget=40)[1:]
